@@ -49,9 +49,10 @@ register("C18",
          "Machine-checked Coq theorems over histories of ANY length and any truncation function: a full refresh after any history yields the materialisation of the current base; merge equals the full rollup whenever all changes since the previous refresh fall inside the window and is idempotent; "
          "an incremental re-run without new data leaves the table literally unchanged and in-order arrival gives the full rollup; C18_history lifts these to whole histories by induction (ghost state = base at the last refresh). "
          "The CLI's incremental/merge modes are refuted by witnesses (known finding). Tied to the code by executing random histories through PreAggregation.refresh and the real CLI and comparing the rollup bag after every step with the model evaluated in Coq, "
-         "plus an SQL-level oracle independent of the model.",
-         "Trusted: Coq kernel; Model/Refresh.v is hand-written (modelled-not-verified, one dimension + sum + count standing for any decomposable rollup) and tied by differential testing; DuckDB and typer CliRunner as drivers; the API source statement (bucket-level watermark predicate) is the harness's choice. No axioms.",
-         "Coq induction over operation histories (pointwise bag algebra); correspondence on executed histories incl. the CLI", "DESIGN.md section 6/C18")
+         "plus an SQL-level oracle independent of the model. The SQL statement programs of the three refresh strategies (per scenario) and the mode dispatch are REGENERATED from pre_aggregation.py on every run; "
+         "C18_prog_refines / C18_progs_history prove that, interpreted statement by statement, they never fail and compute exactly the model's step for every state, operation and history.",
+         "Trusted: Coq kernel; translator/gen_refresh.py (fail-closed definitional interpreter, validated against CPython each run) and the statement semantics Model/RefreshProg.exec; Model/Refresh.v is hand-written (modelled-not-verified, one dimension + sum + count standing for any decomposable rollup) and tied by differential testing; DuckDB and typer CliRunner as drivers; the API source statement (bucket-level watermark predicate) is the harness's choice. No axioms.",
+         "Coq induction over operation histories (pointwise bag algebra) + refinement of the translator-regenerated statement programs; correspondence on executed histories incl. the CLI", "DESIGN.md section 6/C18")
 
 register("C01",
          "Machine-checked Coq theorem C01_rows: for every single-model definition, query and table of ANY size the relational plan the generator emits (CTE of dimension expressions and raw measure columns with CASE-WHEN metric filters, "
@@ -65,10 +66,13 @@ register("C02",
          "Machine-checked Coq theorems for join trees of ANY size and tables of any size: a slot flagged safe along the join steps carries each row of its model in at most one wide row (C02_safe_slots, induction over steps, "
          "when the declared cardinalities hold in the data); the value computed for a metric equals its aggregation over the DISTINCT connected rows of its own model for plain aggregates on safe slots, for COUNT DISTINCT/MIN/MAX unconditionally, "
          "and for the symmetric SUM/AVG/COUNT form under unique non-NULL keys, an injective hash and bounded non-NULL integer values (C02_metric_value); adjacency is declaration-side invariant. "
+         "C02_decision: in the plan of the planning model every base-model metric gets the symmetric form or sits on a safe slot, for any declarations and query. Regenerated from the source on every run: the SQL shape of "
+         "build_symmetric_aggregate_sql per aggregation literal (proved to mean exactly the symmetric aggregate of the theorems, C02_symagg_shapes) and the decision table of _has_fanout_joins over scripted join paths "
+         "(proved equal to the planning model's flag, C02_fanout_table / C02_fanout_is_plan_flag). "
          "The planning decisions (base model, BFS steps, LEFT/INNER, which metric is symmetric) and the joined query are hand-written models tied to generator.py + DuckDB by executing random forests/queries on both; "
          "the reference semantics is the property oracle. Three narrow known-finding classes (K1 non-base metric on an unsafe slot, K2 NULL measure under the symmetric form, K3 DOUBLE under the symmetric SUM) are carved out with refutation witnesses.",
-         "Trusted: Coq kernel; Model/Plan.v + Model/Join.v + Model/Mult.v hand-written (modelled-not-verified), tied by differential testing; hash injectivity and value bound are explicit hypotheses; DuckDB as oracle. No axioms.",
-         "Coq induction over join steps (multiplicity invariant) + symmetric-aggregate algebra; model/implementation correspondence on generated forests", "DESIGN.md section 6/C02")
+         "Trusted: Coq kernel; translator/pyinterp.py + gen_symagg.py (fail-closed, validated against CPython each run; the SQL-text-to-shape parser is trusted); Model/Plan.v + Model/Join.v + Model/Mult.v hand-written (modelled-not-verified), tied by differential testing; hash injectivity and value bound are explicit hypotheses; DuckDB as oracle. No axioms.",
+         "Coq induction over join steps (multiplicity invariant) + symmetric-aggregate algebra + planning-decision theorem; translator-regenerated SQL shapes / decision table; model/implementation correspondence on generated forests", "DESIGN.md section 6/C02")
 
 register("C03",
          "Machine-checked Coq theorems about the multi-fact form for sub-query results of ANY size: the FULL OUTER JOIN (NULL-safe dimension equality, COALESCE) of two key-unique sub-results has exactly the union of their groups, each once (C03_union), "
